@@ -9,6 +9,8 @@ be equal.  Steps:
       (a re-attached SUB loses an unspecified number of early publishes in reality: only eventual re-attachment is compared)
   ('pollseq', [(op, name)...], [names]) poller register/unregister sequence then poll -> ready names
   ('bind_retry', name, addr)  bind, retrying while the address is still held by a socket that is being closed (no observation)
+  ('mark',)                    remember the time;  ('wait_msg', name, min_ms, max_ms) -> obs (a message arrived within max_ms, and not sooner
+                              than min_ms after the mark)
   ('simflag', attr, value)    set an attribute of the simulated network (no-op on real sockets; picks which of two real behaviours the
                               simulation shows when it models both, e.g. whether requests handed to a peer die with it)
 """
@@ -149,15 +151,15 @@ CASES['push-linger0-close-after-linger-delivers'] = [   # what ZMQReceiver.destr
 CASES['push-reconnects-after-ivl(tcp)'] = [
     ('sock', 'pull', 'PULL'), ('bind', 'pull', 'tcp:47323'), ('sock', 'push', 'PUSH'), ('opt', 'push', 'LINGER', 0), ('opt', 'push', 'RECONNECT_IVL', 100),
     ('connect', 'push', 'tcp:47323'), ('settle',), ('send', 'push', T('before'), True), ('settle',), ('drain', 'pull'),
-    ('close', 'pull'), ('sock', 'pull2', 'PULL'), ('bind_retry', 'pull2', 'tcp:47323'), ('send', 'push', T('after'), True),
-    ('poll', ['pull2'], 40), ('poll', ['pull2'], 400), ('drain', 'pull2'),
+    ('mark',), ('close', 'pull'), ('sock', 'pull2', 'PULL'), ('bind_retry', 'pull2', 'tcp:47323'), ('send', 'push', T('after'), True),
+    ('wait_msg', 'pull2', 95, 1500), ('drain', 'pull2'),      # it arrives, and not sooner than RECONNECT_IVL after the break (a busy machine only makes it later)
 ]
 
 CASES['sub-reconnects-after-ivl(tcp)'] = [
     ('sock', 'pub', 'PUB'), ('bind', 'pub', 'tcp:47324'), ('sock', 'sub', 'SUB'), ('opt', 'sub', 'RECONNECT_IVL', 100), ('connect', 'sub', 'tcp:47324'),
     ('subscribe', 'sub', ''), ('settle',), ('send', 'pub', T('/a/', 'one'), False), ('settle',), ('drain', 'sub'),
-    ('close', 'pub'), ('sock', 'pub2', 'PUB'), ('bind_retry', 'pub2', 'tcp:47324'), ('send', 'pub2', T('/a/', 'early'), False),
-    ('poll', ['sub'], 40), ('settle',), ('settle',), ('settle',), ('send', 'pub2', T('/a/', 'late'), False), ('settle',), ('drain', 'sub'),
+    ('mark',), ('close', 'pub'), ('sock', 'pub2', 'PUB'), ('bind_retry', 'pub2', 'tcp:47324'),
+    ('send_until', 'pub2', 'sub', '/a/'), ('settle',), ('drain', 'sub'), ('send', 'pub2', T('/a/', 'late'), False), ('settle',), ('drain', 'sub'),
 ]
 
 # a request that had reached the peer's process dies with the peer (the other real behaviour - still queued at the sender, delivered to
